@@ -3,5 +3,6 @@ CONSTANTS
   MaxTxs = 2
   OutShapes <- OutsFull
   InShapes <- InsFull
+  SampleSize = 0
   Faults = {"none"}
 INVARIANTS EmitAll
